@@ -1,4 +1,5 @@
 """C15 SQL filters select exactly the intended rows; values are always bound."""
+import logging
 import re
 import sqlite3
 
@@ -194,6 +195,8 @@ STATICS = [
     ("s IN ('a', 'abc', 'A')", lambda row: _in(row['s'], ['a', 'abc', 'A'])),
     ("s > 'a'", lambda row: cmp('>', row['s'], 'a')),
     ("(n is null or s = 'abc')", lambda row: OR([row['n'] is None, cmp('=', row['s'], 'abc')])),
+    ("s LIKE 'a%'", lambda row: None if row['s'] is None else like('a%', row['s'])),
+    ("id % 2 = 1", lambda row: row['id'] % 2 == 1),
 ]
 # static texts with a bare OR: only the parentheses an OR group promises make them safe, so they are
 # generated as operands of OR groups only (first N_TOP entries of STATICS may stand at the top level)
@@ -284,6 +287,9 @@ def method(kind):
     if kind not in _METHODS:
         if kind == "group":
             _METHODS[kind] = SqlMethod("SELECT n, count(*) AS cnt FROM t", group_by="n", order_by="n")
+        elif kind == "count":
+            # an aggregate without GROUP BY always gives exactly one row
+            _METHODS[kind] = SqlMethod("SELECT count(*) AS cnt, max(id) AS top FROM t")
         else:
             _METHODS[kind] = SqlMethod("SELECT id, n, s FROM t", order_by="id")
     return _METHODS[kind]
@@ -296,8 +302,18 @@ def table_method(m):
     return _METHODS[key]
 
 
+_LOG = logging.getLogger("ak.mtd_sql")
+_LOG.addHandler(logging.NullHandler())
+_LOG.propagate = False
+
+
 def run_case(ctx, rng):
     ctx.evaluated()
+    # every fifth query runs with the module's debug log switched on (the messages go nowhere)
+    debug = rng.random() < 0.2
+    _LOG.setLevel(logging.DEBUG if debug else logging.WARNING)
+    if debug:
+        ctx.count("queries_with_debug_logging")
     db = sqlite3.connect(":memory:")
     db.execute("CREATE TABLE t (id INTEGER PRIMARY KEY, n INTEGER, s TEXT, _d INTEGER)")
     rows = [{'id': i, 'n': rng.choice(INTS), 's': rng.choice(STRS), '_d': rng.choice([0, 0, 1, None])}
@@ -330,7 +346,7 @@ def run_case(ctx, rng):
     kw_conds.sort(key=lambda c: c[1])
     all_conds = conds + kw_conds
     order = rng.choice(["id", "id DESC", None])
-    mode = rng.choice(["list", "list", "all", "one", "one_or_none", "scalars", "group", "table"])
+    mode = rng.choice(["list", "list", "all", "one", "one_or_none", "scalars", "group", "table", "count"])
     if mode == "table" and SqlMethodT is None:
         mode = "list"
     case = {"rows": rows, "conds": all_conds, "order": order, "mode": mode, "percent_s": percent_s}
@@ -341,7 +357,21 @@ def run_case(ctx, rng):
     if order is not None:
         call_kw['_order_by'] = order
     try:
-        if mode == "group":
+        if mode == "count":
+            m = method("count") if rng.random() < 0.8 else SqlMethod("SELECT count(*) AS cnt, max(id) AS top FROM t")
+            call_kw.pop('_order_by', None)
+            how = rng.choice(["list", "one", "all"])
+            ctx.count("aggregate_queries_without_group_by")
+            try:
+                got = ([tuple(m.one(conn, *args, **call_kw))] if how == "one" else
+                       [tuple(r) for r in getattr(m, how)(conn, *args, **call_kw)])
+            except ValueError as err:
+                got = "ValueError: " + str(err)
+            want = [(len(exp), max(exp) if exp else None)]
+            if got != want:
+                ctx.violation("aggregate-result-differs", {"got": repr(got)[:100], "expected": want, "how": how,
+                                                           "stmt": conn.log[-1] if conn.log else None}, case)
+        elif mode == "group":
             m = method("group") if rng.random() < 0.8 else SqlMethod(
                 "SELECT n, count(*) AS cnt FROM t", group_by="n", order_by="n")
             call_kw.pop('_order_by', None)
@@ -412,6 +442,10 @@ def run_case(ctx, rng):
         ctx.count("non_empty_results")
     if percent_s:
         ctx.count("percent_s_queries")
+    if not conn.log:
+        # (no statement reached the database: the rows were judged above, there is no statement to inspect)
+        ctx.count("queries_answered_without_a_statement")
+        return case
     sql, params = conn.log[-1]
     ph = "%s" if percent_s else "?"
     n_ph = sql.count(ph)
